@@ -123,11 +123,16 @@ def InvBody (s : State α) (m : Mon α) : Prop :=
   match s.ret with
   | none => s.h.consumed = false ∧ s.h.err = false ∧ m.opened = openOf s.stack ∧
             m.stopped = (if s.h.done then some Stop.done else none)
-  | some r => okRes r m
+  | some r => okRes r m ∧ (m.stopped = none → s.h = Handler.fresh)
 
 /-- the monitor accepts the log so far and its state mirrors the walker's -/
 def Inv (v : Visitor α) (s : State α) : Prop :=
   ∃ m, replay v [] s.log Mon.init = some m ∧ InvBody s m
+
+omit [DecidableEq α] in
+theorem handler_fresh_of (h : Handler) (h1 : h.consumed = false) (h2 : h.done = false) (h3 : h.err = false) :
+    h = Handler.fresh := by
+  cases h; simp only [Handler.fresh] at *; simp [h1, h2, h3]
 
 theorem start_inv (v : Visitor α) (t : Tree α) : Inv v (start t) := by
   cases t with
@@ -168,7 +173,9 @@ theorem descend_inv (v : Visitor α) (s : State α) (c : Cursor α) (rest : List
   unfold descend
   cases hk : construct (c.branches.getD c.idx Tree.bad) with
   | none =>
-    exact ⟨m, by simpa [halt] using hm, by simp [InvBody, halt, hmust, okRes, hst]⟩
+    exact ⟨m, by simpa [halt] using hm, by
+      simp only [InvBody, halt, hmust, okRes, hst, true_and]
+      exact fun _ => handler_fresh_of _ hcons hdone herr⟩
   | some k =>
     have hk0 : k.idx = 0 := (construct_some _ _ hk).1
     refine ⟨m, by simpa using hm, ?_⟩
@@ -206,8 +213,9 @@ theorem fire_replay (v : Visitor α) (s : State α) (e : Ev α) (m m' : Mon α)
 
 /-- a halted state satisfies the invariant when the monitor state agrees with the result -/
 theorem halt_inv (v : Visitor α) (s : State α) (r : Result) (m : Mon α)
-    (hm : replay v [] s.log Mon.init = some m) (hmust : m.must = none) (hr : okRes r m) :
-    Inv v (halt s r) := ⟨m, by simpa using hm, hmust, by simpa [InvBody] using hr⟩
+    (hm : replay v [] s.log Mon.init = some m) (hmust : m.must = none) (hr : okRes r m)
+    (hf : m.stopped = none → s.h = Handler.fresh) :
+    Inv v (halt s r) := ⟨m, by simpa using hm, hmust, by simpa [InvBody] using ⟨hr, hf⟩⟩
 
 theorem iter_inv (v : Visitor α) (s : State α) (c : Cursor α) (rest : List (Cursor α)) (m : Mon α)
     (hm : replay v [] s.log Mon.init = some m) (hmust : m.must = none) (hst : m.stopped = none)
@@ -232,13 +240,13 @@ theorem iter_inv (v : Visitor α) (s : State α) (c : Cursor α) (rest : List (C
       rw [ha] at h1h hrep
       have : s1.h.err = true := by rw [h1h]; rfl
       simp only [this, ite_true]
-      exact halt_inv v s1 _ _ hrep (by simp [Mon.after, hmust]) (by simp [okRes, Mon.after])
+      exact halt_inv v s1 _ _ hrep (by simp [Mon.after, hmust]) (by simp [okRes, Mon.after]) (by simp [Mon.after])
     | done cc =>
       rw [ha] at h1h hrep
       have e1 : s1.h.err = false := by rw [h1h]; exact herr
       have e2 : s1.h.done = true := by rw [h1h]; rfl
       simp only [e1, e2, Bool.false_eq_true, ite_false, ite_true]
-      exact halt_inv v s1 _ _ hrep (by simp [Mon.after, hmust]) (by simp [okRes, Mon.after])
+      exact halt_inv v s1 _ _ hrep (by simp [Mon.after, hmust]) (by simp [okRes, Mon.after]) (by simp [Mon.after])
     | «continue» =>
       rw [ha] at h1h hrep
       have e1 : s1.h.err = false := by rw [h1h]; exact herr
@@ -283,13 +291,13 @@ theorem iter_inv (v : Visitor α) (s : State α) (c : Cursor α) (rest : List (C
         rw [ha] at h3h hrep
         have : s3.h.err = true := by rw [h3h]; rfl
         simp only [this, ite_true]
-        exact halt_inv v s3 _ _ hrep (by simp [Mon.after, hmust]) (by simp [okRes, Mon.after])
+        exact halt_inv v s3 _ _ hrep (by simp [Mon.after, hmust]) (by simp [okRes, Mon.after]) (by simp [Mon.after])
       | done cc =>
         rw [ha] at h3h hrep
         have e1 : s3.h.err = false := by rw [h3h]; exact herr
         have e2 : s3.h.done = true := by rw [h3h]; rfl
         simp only [e1, e2, Bool.false_eq_true, ite_false, ite_true]
-        exact halt_inv v s3 _ _ hrep (by simp [Mon.after, hmust]) (by simp [okRes, Mon.after])
+        exact halt_inv v s3 _ _ hrep (by simp [Mon.after, hmust]) (by simp [okRes, Mon.after]) (by simp [Mon.after])
       | «continue» =>
         rw [ha] at h3h hrep
         have e1 : s3.h.err = false := by rw [h3h]; exact herr
@@ -323,9 +331,13 @@ theorem step_inv (v : Visitor α) (s : State α) (h : Inv v s) : Inv v (step v s
       refine ⟨m, by simpa [halt] using hm, hmust, ?_⟩
       simp only [halt, okRes]
       rw [hstack] at hop
-      constructor
+      refine ⟨⟨?_, ?_⟩, ?_⟩
       · intro _; simpa [openOf] using hop
       · rw [hst]; split <;> simp
+      · intro hs0
+        have hd0 : s.h.done = false := by
+          rw [hst] at hs0; cases hd : s.h.done <;> simp [hd] at hs0 ⊢
+        exact handler_fresh_of _ hcons hd0 herr
     | cons c rest =>
       simp only
       by_cases hd : s.h.done = true
@@ -813,8 +825,8 @@ theorem calls_closed (h : Handler) (cs : List Call) :
     have : h.calls (c :: cs) = (h.call c).calls cs := rfl
     rw [this, ih]
     cases c with
-    | consume => simp [Handler.call, List.contains_cons, Bool.or_assoc]
-    | setDone => simp [Handler.call, List.contains_cons, Bool.or_assoc]
+    | consume => simp [Handler.call]
+    | setDone => simp [Handler.call]
     | setError b =>
       cases b
       · simp [Handler.call, List.contains_cons, Bool.or_assoc, Bool.or_comm, Bool.or_left_comm]
@@ -843,7 +855,42 @@ theorem generic_accepted (v : Visitor α) (t : Tree α) :
   obtain ⟨r, hr⟩ := Option.isSome_iff_exists.1 (generic_terminates v t)
   unfold generic at hr ⊢
   simp only [hr] at hb
-  exact ⟨r, m, hr, hm, hmust, hb⟩
+  exact ⟨r, m, hr, hm, hmust, hb.1⟩
+
+/-- if no callback cancelled the walk, the handler it leaves behind is in its initial state: the consume flag is
+cleared (done / err are never set in that case) -/
+theorem generic_clean (v : Visitor α) (t : Tree α) :
+    ∃ m, replay v [] (generic v t).log Mon.init = some m ∧ (m.stopped = none → (generic v t).h = Handler.fresh) := by
+  obtain ⟨m, hm, _, hb⟩ := steps_inv v (fuel t) _ (start_inv v t)
+  obtain ⟨r, hr⟩ := Option.isSome_iff_exists.1 (generic_terminates v t)
+  unfold generic at hr ⊢
+  simp only [hr] at hb
+  exact ⟨m, hm, hb.2⟩
+
+omit [DecidableEq α] in
+theorem genericFrom_fresh (v : Visitor α) (t : Tree α) : genericFrom Handler.fresh v t = generic v t := by
+  unfold genericFrom generic startFrom start; cases construct t <;> rfl
+
+omit [DecidableEq α] in
+/-- a visitor that is already done (a previous walk was cancelled or failed) gets no callback at all -/
+theorem genericFrom_done (h0 : Handler) (v : Visitor α) (t : Tree α) (hd : h0.done = true) :
+    (genericFrom h0 v t).log = [] ∧ (genericFrom h0 v t).h = h0 ∧
+      (t.good = true → (genericFrom h0 v t).ret = some .ok) := by
+  cases t with
+  | bad =>
+    have : genericFrom h0 v (Tree.bad : Tree α) = startFrom h0 Tree.bad :=
+      steps_of_ret v _ _ .cursorError (by simp [startFrom, construct])
+    rw [this]; simp [startFrom, construct, Tree.good]
+  | node l kids =>
+    have h1 : step v (startFrom h0 (Tree.node l kids)) = halt (startFrom h0 (Tree.node l kids)) .ok := by
+      simp [step, startFrom, construct, hd]
+    have : genericFrom h0 v (Tree.node l kids) = halt (startFrom h0 (Tree.node l kids)) .ok := by
+      unfold genericFrom fuel
+      rw [show 2 * (Tree.node l kids).size + 2 = (2 * (Tree.node l kids).size + 1) + 1 from rfl]
+      simp only [steps]
+      rw [h1]
+      exact steps_of_ret v _ _ .ok rfl
+    rw [this]; simp [halt, startFrom, construct]
 
 theorem judgeRun_generic (v : Visitor α) (t : Tree α) (r : Result) (h : (generic v t).ret = some r) :
     judgeRun v (generic v t).log r = none := by
